@@ -1140,24 +1140,58 @@ func ruleHD6() Rule {
 				return r
 			}
 			emit := c.fn("parser.(*lexer).emit")
+			// predicates over a token that mention the `<<` token (isRedirOp and the like)
+			mentionsHere := func(g *core.Func) bool {
+				if g == nil || g.Decl == nil {
+					return false
+				}
+				gi := g.Info()
+				hit := false
+				g.OwnNodes(func(x ast.Node) bool {
+					if id, ok := x.(*ast.Ident); ok && gi.Uses[id] == hereTok {
+						hit = true
+					}
+					return true
+				})
+				return hit
+			}
 			for _, f := range c.funcsOfPkg("parser", false) {
 				info := f.Info()
 				f.OwnNodes(func(n ast.Node) bool {
-					cc, ok := n.(*ast.CaseClause)
-					if !ok {
-						return true
-					}
-					lists := false
-					for _, e := range cc.List {
-						if id, ok := ast.Unparen(e).(*ast.Ident); ok && info.Uses[id] == hereTok {
-							lists = true
+					// a container in which the token may be `<<`: a case clause that lists it,
+					// or the body of an if whose condition asks a predicate that mentions it
+					var body []ast.Stmt
+					var at ast.Node
+					switch x := n.(type) {
+					case *ast.CaseClause:
+						for _, e := range x.List {
+							if id, ok := ast.Unparen(e).(*ast.Ident); ok && info.Uses[id] == hereTok {
+								body, at = x.Body, x
+							}
+						}
+					case *ast.IfStmt:
+						pred := false
+						ast.Inspect(x.Cond, func(y ast.Node) bool {
+							if call, ok := y.(*ast.CallExpr); ok {
+								if fo := core.StaticCallee(info, call); fo != nil {
+									if g := c.P.FuncOf(fo); g != nil && g.Type.Results != nil && g.Type.Results.NumFields() == 1 && mentionsHere(g) && g != f {
+										if t := info.Types[call].Type; t != nil && t.String() == "bool" {
+											pred = true
+										}
+									}
+								}
+							}
+							return true
+						})
+						if pred {
+							body, at = x.Body.List, x
 						}
 					}
-					if !lists {
+					if at == nil {
 						return true
 					}
 					emits := false
-					for _, st := range cc.Body {
+					for _, st := range body {
 						if c.callsFunc(info, st, emit) {
 							emits = true
 						}
@@ -1168,7 +1202,7 @@ func ruleHD6() Rule {
 					key := f.Name + "|operand of `<<` is counted"
 					var fetch []*ast.CallExpr
 					bad := false
-					for _, st := range cc.Body {
+					for _, st := range body {
 						ast.Inspect(st, func(x ast.Node) bool {
 							if _, isLit := x.(*ast.FuncLit); isLit {
 								return false
@@ -1193,7 +1227,7 @@ func ruleHD6() Rule {
 					switch {
 					case bad:
 					case len(fetch) == 0:
-						rr.Unk(f, key, cc.Pos(), "the clause emits the operator but fetches no operand token")
+						rr.Unk(f, key, at.Pos(), "the clause emits the operator but fetches no operand token")
 					default:
 						rr.OK(f, key, fetch[0].Pos(), "counted", "operand fetched through "+exprStr(fetch[0].Fun)+", which reaches heredoc.inc")
 					}
